@@ -7,11 +7,11 @@ import coqlit as L
 ID = "C12"
 COQ_PROPERTY_FILE = "Properties/C12.v"
 COQ_DEPS = ["Common/ListX.v", "Common/ObsHash.v", "Generated/Tables.v", "Model/DataCollector.v",
-            "Proofs/DataCollectorProofs.v"]
+            "Proofs/DataCollectorProofs.v", "Proofs/DataCollectorBridge.v"]
 COQ_IMPORTS = "From Mesa Require Import Model.DataCollector."
 COQ_CASE_TYPE = "case"
 COQ_RUN = "run_case"
-TABLE_CONSTRUCTS = []
+TABLE_CONSTRUCTS = ["dc_add_row_code", "dc_type_choice_code", "dc_dispatch_code", "dc_collect_skeleton"]
 RULE = ("histories = one reporter dictionary (model / agent / agent-type reporters in the four forms attribute name, "
         "function or partial, bound method, [function, args]; tables) + a sequence of model-attribute writes (ints, None, "
         "fresh lists, aliases, in-place appends, deletions), agent creations (6 classes in a 3-level hierarchy) and "
@@ -22,6 +22,9 @@ TRUSTED_BASE = [
     "Coq 8.16.1 kernel (coqc); vm_compute used for finite facts and for evaluating the model in the correspondence",
     "no axioms: Print Assumptions reports 'Closed under the global context' for every C12 theorem",
     "harness/props/C12.py driver+observer and the Gallina literal printer (T2, differential testing, not a proof)",
+    "harness/pyexpr.py + harness/tables/datacollect_batch_code.py (code-level T1): add_table_row's rejection test and cell, "
+    "_record_agenttype's agent-source choice and collect's reporter dispatch chain are translated from the working tree on every "
+    "run and bridged to the model (Proofs/DataCollectorBridge.v); the remaining statements of collect/_record_agents are pinned verbatim",
     "Model/DataCollector.v is a hand transcription of mesa/datacollection.py; dict = insertion-ordered association list, "
     "deepcopy = reading the store into an immutable value, reporters = terms of a small DSL built identically as Python callables",
     "pandas is external: the frames (index names, column labels and order, row order, values) are modelled as pure list "
